@@ -1,6 +1,9 @@
-// Unit `file`: src/file.rs ChunkedReadFile - construction and validators (the half of C18 within the verifier's reach).
-// Not extracted: `get_range` (an `async` closure around pread(2) inside futures `unfold` + tokio `block_in_place`) and
-// `add_headers` (iterator adapter over the `http` map); `get_range` is covered by the bounded native stand-in only.
+// Unit `file`: src/file.rs ChunkedReadFile - construction, validators, and the STEP FUNCTION of `get_range`'s stream.
+// `get_range` is `futures::stream::unfold(state0, step)`: rule R44 lifts the closure `move |(left, inner)| async { .. }` out as
+// the function `get_range_step` (its body is the closure's body, verbatim) and checks that state0 is (requested range, this
+// file).  What `unfold`, `block_in_place` and pread(2) do is ASSUMED (prelude below); the step function and the trace lemma
+// over it are proved.  The bounded native check on real files stays as a cross-check of those assumptions.
+// Not extracted: `add_headers` (iterator adapter over the `http` map).
 #![feature(allocator_api)]
 use vstd::prelude::*;
 verus! {
@@ -11,6 +14,8 @@ verus! {
 use http::{HeaderMap, HeaderValue, HV};
 use stub::{SystemTime, Duration};
 use std::sync::Arc;
+use std::ops::Range;
+use vstd::std_specs::convert::*;
 pub mod time { pub use crate::stub::SystemTime; pub const UNIX_EPOCH: SystemTime = SystemTime { secs: 0, nanos: 0 }; }
 
 /// std::io as far as file.rs uses it.
@@ -40,6 +45,36 @@ pub mod platform {
         ensures r.is_ok() == sp_file_info(f, m).is_some(), r matches Ok(i) ==> Some(i) == sp_file_info(f, m) && i.mtime.nanos < 1_000_000_000
     { unimplemented!() }
 }
+
+/// One positioned read as the OS answered it: `n` bytes asked at offset `off`, `got` = the bytes returned (None = error).
+pub struct ReadEv { pub n: usize, pub off: u64, pub got: Option<Seq<u8>> }
+impl fs::File {
+    /// src/platform.rs `FileExt::read_at` (pread(2) into an uninitialised buffer: unsafe FFI, ASSUMED): at most `chunk_size`
+    /// bytes, and never an empty Ok (a 0-byte read - nothing at or beyond `offset` - is turned into UnexpectedEof there).
+    /// Every call is appended to the ghost log `reads` (rule R44), so "which bytes were read where" can be a postcondition.
+    #[verifier::external_body]
+    pub fn read_at(&self, chunk_size: usize, offset: u64, reads: &mut Ghost<Seq<ReadEv>>) -> (r: Result<Vec<u8>, io::Error>)
+        ensures final(reads)@ == old(reads)@.push(ReadEv { n: chunk_size, off: offset, got: match r { Ok(v) => Some(v@), Err(_) => None } }),
+                r matches Ok(v) ==> 1 <= v@.len() <= chunk_size,
+    { unimplemented!() }
+}
+/// The entity's Data type as far as get_range needs it: `From<Vec<u8>>`, assumed to preserve the bytes.
+pub mod fdata {
+    use vstd::prelude::*;
+    use vstd::std_specs::convert::*;
+    pub trait FileData: From<Vec<u8>> { spec fn bytes(&self) -> Seq<u8>; }
+    pub broadcast axiom fn file_data_from_vec<D: FileData>(v: Vec<u8>)
+        ensures (#[trigger] <D as FromSpec<Vec<u8>>>::from_spec(v)).bytes() == v@;
+    pub broadcast axiom fn file_data_from_vec_obeys<D: FileData>()
+        ensures #[trigger] <D as FromSpec<Vec<u8>>>::obeys_from_spec();
+    pub broadcast group file_data_axioms { file_data_from_vec, file_data_from_vec_obeys }
+}
+use fdata::FileData;
+broadcast use fdata::file_data_axioms;
+/// `Box::<dyn StdError + Send + Sync>::from(e).into()` (rule R44): the I/O error boxed and converted into the entity's error type.
+#[verifier::external_body]
+pub fn box_error_into<E>(e: io::Error) -> (r: E) { unimplemented!() }
+//@item src/file.rs :: static CHUNK_SIZE rules=R36
 
 /// `unsafe_fmt_ascii_val!` as used by `etag` (src/lib.rs macro: write!(buf, fmt, args) into a BytesMut of initial capacity `max_len`, which grows on demand).
 macro_rules! unsafe_fmt_ascii_val {
@@ -128,6 +163,67 @@ impl<D, E> ChunkedReadFile<D, E> {
     //@ at_start: proof { reveal_strlit("\"{:x}:{:x}:{}{:x}:{:x}\""); reveal_strlit("\"{:x}:{:x}:{:x}:{:x}\""); reveal_strlit(""); reveal_strlit("-"); }
     //@end
 }
+
+
+// ---- C18 (stream half): the step function of get_range's `unfold`, and what follows from it for every run ----
+pub type StepState = (Range<u64>, Arc<ChunkedReadFileInner>);
+/// One step from state `left` when the OS answers `ev`: the item yielded and the next range.
+pub open spec fn step_ok(left: Range<u64>, ev: ReadEv, next: Range<u64>) -> bool {
+    &&& ev.off == left.start
+    &&& ev.n == (if left.end - left.start < CHUNK_SIZE { left.end - left.start } else { CHUNK_SIZE as int })
+    &&& match ev.got {
+            Some(b) => 1 <= b.len() <= left.end - left.start && next.start == left.start + b.len() && next.end == left.end,
+            None => next == left,
+        }
+}
+
+impl<D: FileData, E> ChunkedReadFile<D, E> {
+//@fn src/file.rs :: impl Entity for ChunkedReadFile :: fn get_range as=get_range_step drop=self,range add=left,inner,reads props=C18 implicit=C18 rules=R44,STD
+fn get_range_step(left: Range<u64>, inner: Arc<ChunkedReadFileInner>, reads: &mut Ghost<Seq<ReadEv>>) -> (r: Option<(Result<D, E>, StepState)>)
+    requires left.start <= left.end,
+    ensures
+        /*@C18 #stream_ends_only_when_the_range_is_delivered*/ (left.start == left.end) == (r is None),
+        /*@C18 #no_read_at_the_end*/ r is None ==> final(reads)@ == old(reads)@,
+        /*@C18 #one_read_at_the_current_offset_of_at_most_the_read_size*/ r matches Some((item, (next, in2))) ==> (in2 == inner && final(reads)@.len() == old(reads)@.len() + 1
+            && final(reads)@.subrange(0, old(reads)@.len() as int) =~= old(reads)@ && step_ok(left, final(reads)@.last(), next)),
+        /*@C18 #chunk_is_exactly_what_was_read_and_errors_surface*/ r matches Some((item, (next, in2))) ==> (match final(reads)@.last().got {
+            Some(b) => item matches Ok(d) && d.bytes() == b,
+            None => item is Err }),
+//@body
+//@end
+}
+
+/// A run of the stream from `a..b` in which every read succeeded: the k-th read starts where the (k-1)-th ended.
+pub open spec fn run_ok(a: u64, b: u64, evs: Seq<ReadEv>, k: int) -> Range<u64>
+    decreases k
+{
+    if k <= 0 { a..b } else { let prev = run_ok(a, b, evs, k - 1); match evs[k - 1].got { Some(x) => ((prev.start + x.len()) as u64)..prev.end, None => prev } }
+}
+pub open spec fn delivered(evs: Seq<ReadEv>, k: int) -> Seq<u8>
+    decreases k
+{ if k <= 0 { Seq::empty() } else { match evs[k - 1].got { Some(x) => delivered(evs, k - 1) + x, None => delivered(evs, k - 1) } } }
+pub open spec fn step_j(a: u64, b: u64, evs: Seq<ReadEv>, j: int) -> bool { evs[j].got is Some && step_ok(run_ok(a, b, evs, j), evs[j], run_ok(a, b, evs, j + 1)) }
+pub open spec fn steps_ok(a: u64, b: u64, evs: Seq<ReadEv>, k: int) -> bool { forall|j: int| 0 <= j < k ==> #[trigger] step_j(a, b, evs, j) }
+
+//@lemma props=C18 lemma_get_range_runs
+/// C18, for every run (any read sizes the OS chooses, any number of steps): while the reads succeed, the chunks are
+/// non-empty, the k-th read starts exactly where the bytes delivered so far end (no gap, no overlap, nothing beyond the
+/// range), at most `b - a` steps are possible, and the stream can only end (`start == end`) once exactly `b - a` bytes
+/// have been delivered - so a file truncated below the range end makes a read fail (error item) instead of a short end.
+pub proof fn lemma_get_range_runs(a: u64, b: u64, evs: Seq<ReadEv>, k: int)
+    requires a <= b, 0 <= k <= evs.len(), steps_ok(a, b, evs, k)
+    ensures
+        /*@C18 #reads_are_contiguous_and_inside_the_range*/ run_ok(a, b, evs, k).start == a + delivered(evs, k).len() && run_ok(a, b, evs, k).end == b && run_ok(a, b, evs, k).start <= b,
+        /*@C18 #bounded_number_of_steps*/ k <= delivered(evs, k).len() <= b - a,
+        /*@C18 #clean_end_means_whole_range*/ run_ok(a, b, evs, k).start == run_ok(a, b, evs, k).end ==> delivered(evs, k).len() == b - a,
+    decreases k
+{
+    if k > 0 {
+        lemma_get_range_runs(a, b, evs, k - 1);
+        assert(step_j(a, b, evs, k - 1));
+    }
+}
+//@endlemma
 
 //@auto_helpers src/file.rs rules=T_file
 //@canary_false
